@@ -243,6 +243,9 @@ func (e *Engine) ResolveTypeWith(s string, pkgPath string, tv map[string]types.T
 		}
 		return nil, fmt.Errorf("bad map type %q", s)
 	}
+	if s == "struct{}" {
+		return types.NewStruct(nil, nil), nil
+	}
 	switch s {
 	case "int", "int64", "int32", "bool", "string", "byte", "uint8", "uint64", "float64", "error", "any", "uint", "int8", "int16", "uint16", "uint32", "rune":
 		return types.Universe.Lookup(s).Type(), nil
